@@ -7,6 +7,7 @@ import AuthModel.Oidc.Sched
 import AuthModel.Gen
 import AuthModel.Secret
 import AuthModel.Config
+import AuthModel.Tls
 open AuthModel AuthModel.Wire
 
 def parseMatch (t : Tok) : Option StringMatch :=
@@ -69,6 +70,8 @@ structure DState where
   confDoc : Config.Doc := { chains := [], listenAddressIsIP := false, listenPort := 0, healthPort := 0, logLevelOk := false, default := none }
   confUrls : List (Str × Option Str) := []
   confRedis : List (Str × Bool) := []
+  tls : Tls.State := Tls.init
+  tlsSettings : List (Nat × Tls.Settings × Tls.LoadResult) := []
 
 def DState.parses (d : DState) : Str → Bool := fun s =>
   match d.parseTbl.find? (·.1 == s) with
@@ -380,6 +383,61 @@ def handleConf (d : DState) (toks : List Tok) : DState × String :=
       | none => "reject")
   | _ => (d, "bad-op")
 
+def tlsOracle : Tls.Oracle :=
+  { parseBool := fun s => s == B "1" || s == B "t" || s == B "T" || s == B "TRUE" || s == B "true" || s == B "True",
+    pemOk := fun s => Str.hasPrefix s (B "CA-") }
+
+def parseSettings (toks : List Tok) : Option Tls.Settings :=
+  match toks with
+  | [inl, file, skip, iv] => do
+    let sk ← (match skip with
+      | ['u'] => some Tls.Skip.unset
+      | ['b', '1'] => some (Tls.Skip.bool true)
+      | ['b', '0'] => some (Tls.Skip.bool false)
+      | 's' :: r => (unhex r).map Tls.Skip.str
+      | _ => none)
+    pure { caInline := (← unhex inl), caFile := (← unhex file), skip := sk, interval := (← intOf iv) }
+  | _ => none
+
+def showLoad : Tls.LoadResult → String
+  | .noConfig => "none"
+  | .error => "error"
+  | .cfg t => "cfg insecure=" ++ (if t.insecure then "1" else "0") ++ " extra=" ++ (match t.extra with | some e => hex e | none => "-")
+
+def handleTls (d : DState) (toks : List Tok) : DState × String :=
+  match toks with
+  | [['r','e','s','e','t']] => ({ d with tls := Tls.init, tlsSettings := [] }, "ok")
+  | ['l','o','a','d'] :: idx :: rest =>
+    match natOf idx, parseSettings rest with
+    | some idx, some s =>
+      let (st, r) := Tls.load tlsOracle d.tls s
+      ({ d with tls := st, tlsSettings := (idx, s, r) :: d.tlsSettings.filter (·.1 != idx) }, showLoad r)
+    | _, _ => (d, "bad-op")
+  | [['r','e','w','r','i','t','e'], path, content] =>
+    match unhex path with
+    | some path =>
+      let c : Option (Option Str) := if content = ['-'] then some none else (unhex content).map some
+      match c with
+      | some c => ({ d with tls := Tls.rewrite d.tls path c }, "ok")
+      | none => (d, "bad-op")
+    | none => (d, "bad-op")
+  | [['s','e','t','t','l','e']] => ({ d with tls := Tls.tickAll tlsOracle d.tls }, "ok")
+  | [['p','r','o','b','e'], idx, ca] =>
+    -- a client built when settings #idx were loaded, now connecting to a server whose chain ends in `ca`
+    match natOf idx, (if ca = ['-'] then some none else (unhex ca).map some) with
+    | some idx, some ca =>
+      match d.tlsSettings.find? (·.1 == idx) with
+      | some (_, s, r) =>
+        let cur : Tls.LoadResult := match r with
+          | .cfg _ => (match Tls.lookupPool d.tls.pool s with | some t => .cfg t | none => r)
+          | other => other
+        (d, if Tls.accepts cur ca then "accept" else "reject")
+      | none => (d, "bad-op")
+    | _, _ => (d, "bad-op")
+  | [['w','a','t','c','h','e','r','s']] =>
+    (d, toString (d.tls.watchers.filter (·.alive)).length ++ "/" ++ toString d.tls.pool.length)
+  | _ => (d, "bad-op")
+
 def showStep (acts : List (Act × ARes)) (t : Thread) : String :=
   showTrace (acts.map (·.1)) ++ (match t.answer with | some r => " => " ++ showResp r | none => "")
 
@@ -450,6 +508,7 @@ def handle (d : DState) (toks : List Tok) : DState × String :=
     | none => "bad-op")
   | ['s','e','c','r','e','t'] :: rest => handleSecret d rest
   | ['c','o','n','f'] :: rest => handleConf d rest
+  | ['t','l','s'] :: rest => handleTls d rest
   | ['r','e','q'] :: rest => handleReq d rest
   | ['s','p','a','w','n'] :: rest => handleSpawn d rest
   | [['s','t','e','p'], tid] =>
